@@ -466,14 +466,13 @@ func hpConfig(th bool) *hpCfg {
 		{name: "[S0v0:core]", segs: []int{0}, types: []seg.Type{seg.TypeCore}},          // 6 (thorough)
 		{name: "[S1v0]", segs: []int{2}, types: []seg.Type{d}},                          // 7 (thorough)
 		{name: "[S2v0]", segs: []int{3}, types: []seg.Type{d}},                          // 8 (thorough)
-		{name: "[S3v0]", segs: []int{5}, types: []seg.Type{d}},                          // 9 (thorough)
 	}
+	// S3 travels with S1 and S2 (as an event of its own it multiplies the state space by the number of groups + 1); in
+	// the thorough configuration S1 and S2 are also registered alone, so S3 may be under other groups than they are
+	c.payloads[2] = hpPayload{name: "[S1v0,S2v0,S3v0]", segs: []int{2, 3, 5}, types: []seg.Type{d, d, d}}
 	good := []int{0, 1, 2}
 	if th {
-		good = append(good, 5, 7, 8, 9)
-	} else {
-		// small configuration: S3 travels with S1 and S2 (a separate event triples the state space)
-		c.payloads[2] = hpPayload{name: "[S1v0,S2v0,S3v0]", segs: []int{2, 3, 5}, types: []seg.Type{d, d, d}}
+		good = append(good, 5, 7, 8)
 	}
 	type gp struct {
 		g int
@@ -829,7 +828,8 @@ func TestC45(t *testing.T) {
 		"combinations, against a recording store (each case is a distinct tuple). Part B: breadth-first search over all " +
 		"histories of Register(group, peer, payload) / clean-up events (until no new state appears) through the real " +
 		"RegistryServer + Storer + sqlite path database; a state is the dump of the database; in every reached state the " +
-		"real AuthoritativeServer is asked every (group list x peer x destination) of the menu; a history is non-trivial if " +
+		"real AuthoritativeServer is asked every (group list x peer x destination) of the menu (stored segments end at " +
+		"destinations that differ only in the ISD resp. only in the AS number; every one of them, their twins and an AS nothing ends at are asked for); a history is non-trivial if " +
 		"the store is non-empty at its end"
 	r.Assumptions = []string{
 		"'they verify' is modelled by a verifier stub whose verdict is part of the event (the real verifier is the subject of C32-C38)",
